@@ -99,8 +99,10 @@ pub struct ReplayResult {
 
 /// Re-execute a replay file on the real code with no explorer involved.
 pub fn replay_book(doc: &Value) -> Result<ReplayResult, String> {
-    let (cfg, seed) = Cfg::from_setup(doc.get("setup").ok_or("no setup")?).ok_or("setup not understood")?;
-    let scen = Scenario { name: "replay".into(), cfg, l: vec![], p: vec![], seed, menu: crate::catalogue::menu_p1(0, 0) };
+    let setup = doc.get("setup").ok_or("no setup")?;
+    let (cfg, seed) = Cfg::from_setup(setup).ok_or("setup not understood")?;
+    let pre_migrate = setup.get("pre_migrate").and_then(|p| Some((p.get("stored_version")?.as_str()?.to_string(), p.get("migrate")?.clone())));
+    let scen = Scenario { name: "replay".into(), cfg, l: vec![], p: vec![], seed, menu: crate::catalogue::menu_p1(0, 0), pre_migrate };
     let want = doc.get("signature").and_then(|s| s.as_str()).unwrap_or("").to_string();
     let mut store: Store = initial_store(&scen)?;
     let mut log = vec![];
@@ -123,7 +125,7 @@ pub fn replay_book(doc: &Value) -> Result<ReplayResult, String> {
     let mut run_exec = |store: &mut Store, v: &Value, log: &mut Vec<String>, seen: &mut Vec<(String, String)>, advance: bool| -> Result<(), String> {
         let act = Act::from_replay(v).ok_or(format!("step not understood: {v}"))?;
         let st = StateCtx::new(&scen.cfg, store);
-        let out = step(store, &scen.cfg.chain, &act.sender, &act.funds, &act.msg);
+        let out = crate::scenario::step_act(store, &scen.cfg.chain, &act);
         log.push(format!("  {} -> {}", act.describe(), out.short()));
         if let Some(a) = out.accepted() {
             for f in &a.flows {
@@ -195,6 +197,7 @@ pub struct RunReport {
     pub wall_s: f64,
     pub machinery_error: Option<String>,
     pub rerun_checked: usize,
+    pub skipped: Vec<String>,
 }
 
 fn sample_of(scen: &Scenario, ex: &Explored) -> Value {
@@ -233,6 +236,7 @@ pub fn run_given(prop: &str, tier: Tier, pl: crate::catalogue::Plan, replay_offs
         wall_s: 0.0,
         machinery_error: None,
         rerun_checked: 0,
+        skipped: vec![],
     };
     let findings = match load_findings() {
         Ok(f) => f,
@@ -246,6 +250,11 @@ pub fn run_given(prop: &str, tier: Tier, pl: crate::catalogue::Plan, replay_offs
     for scen in &pl.scenarios {
         let ex = match explore(scen, &hooks, &caps) {
             Ok(e) => e,
+            Err(e) if e.starts_with("SKIP:") => {
+                println!("WARNING scenario skipped: {e}");
+                rep.skipped.push(e);
+                continue;
+            }
             Err(e) => {
                 rep.machinery_error = Some(e);
                 return rep;
@@ -293,7 +302,7 @@ pub fn run_given(prop: &str, tier: Tier, pl: crate::catalogue::Plan, replay_offs
                 continue;
             }
             nrep += 1;
-            let setup = scen.cfg.setup_value(&scen.seed);
+            let setup = scen.cfg.setup_value_pm(&scen.seed, &scen.pre_migrate);
             let file = match write_replay(prop, nrep, &scen.name, tier, setup, &pl.hooks, path_ops(scen, &ex, v.first_state), v) {
                 Ok(f) => f,
                 Err(e) => {
